@@ -9,7 +9,9 @@ ID = re.compile(r"\{T(\d+)\}")
 TITLES = ["Title", "t", "A longer title with spaces", "ünï ✓", "日本語", "x" * 40, "###", "a.b-c", "", "with *stars* and `ticks`", "pipe | and \\ backslash", "_under_ :role:`x`"]
 HEADERS = [list("#*=-_~!&@^"), ["="], ["*", "#"], list("-~^"), ["+", "=", "-"], list("=-=-"), ["#", "#", "*"], list("~~~~")]
 TEXTS = ["plain", "  leading two", "        eight", "a\nb", "first\n   indented second\nthird", "tail  ", ":looks: like field",
-         ".. looks:: like directive", "* bullet-like", "ünï ✓", "\ttab", "", "line\n\nwith blank"]
+         ".. looks:: like directive", "* bullet-like", "ünï ✓", "\ttab", "", "line\n\nwith blank",
+         # characters that str.splitlines() takes for line ends: inside a paragraph line they are ordinary characters
+         "form\x0cfeed", "next\x85line", "ls\u2028sep", "ps\u2029sep", "vt\x0btab", "fs\x1csep"]
 
 
 def snap(obj, depth=0, seen=None):
@@ -98,9 +100,15 @@ class Prop(BaseProp):
         from cminx.rstwriter import RSTWriter
         res = CaseResult()
         headers = rng.choice(HEADERS)
+        default_headers = rng.random() < 0.12
+        if default_headers:
+            # no header list configured: the documented default sequence applies (whatever earlier documents of this
+            # process were configured with)
+            headers = list("#*=-_~!&@^")
         self.headers_now = headers
         level = rng.randrange(len(headers))
-        settings = runner.make_settings(rst={"headers": headers})
+        settings = runner.make_settings(rst={"headers": None if default_headers else headers})
+        res.see("header_configuration", "default (None)" if default_headers else "configured")
         title = rng.choice(TITLES)
         counter = [0]
         ops = []
